@@ -44,7 +44,7 @@ claimed = {
    note="hsmsss and secs1 transports; data handlers always return (the property's premise): immediately, after 5-80 ms, or after replying and sending from inside the handler. Close latency bound is close timeout + 5 s. ErrCloseTimeout as a return value is counted, not judged.",
    technique="randomized lifecycle programs with leak meters (goroutines, sockets, fds), latency bound and race detector"),
  "C20": dict(level=E,
-   text="80 (quick) / 1200 (thorough) histories of 1..32 concurrent senders whose calls end in every outcome (reply, reject, T3, cancel, refused, disconnect, write error, write timeout against a peer that stops reading), with a drop, a forced streak of refused dials and a reconnect; an accountant derives every counter from the per-call outcomes and the peer's own frame counts and compares at quiescent points; a sampler watches both gauges (never negative; Reconnecting()>0 inside the refusal streak). Race build." + HELD,
+   text="80 (quick) / 1200 (thorough) histories of 1..32 concurrent senders whose calls end in every outcome (reply, reject, T3, cancel, refused, disconnect, write error, write timeout against a peer that stops reading, asynchronous write failure), peer data inside a Deselect window and unsolicited peer primaries, with a drop, a forced streak of refused dials and a reconnect; an accountant derives every counter from the per-call outcomes and the peer's own frame counts and compares at quiescent points; a sampler watches both gauges (never negative; Reconnecting()>0 inside the refusal streak). Race build." + HELD,
    note="hsmsss transport. Exact equality with the peer's counts is required only at fault-free quiescent points; across a drop Send is bounded (a successful write may die in the socket buffer).",
    technique="conservation monitor: independent accountant vs library counters at quiescent points + gauge sampler"),
  "C03": dict(level=E,
